@@ -304,11 +304,28 @@ class LabelFlow:
             extra |= x1 | x2
         elif isinstance(st, (ast.For, ast.AsyncFor)):
             il = self.expr(st.iter, env)
+            rows = self._literal_rows(st.iter)
+            if rows is not None:
+                # a literal table: the number of iterations is fixed by the source text, whatever the entries hold
+                il = set()
             self.at[st.iter] = il
             self._mark_set_iter(st)
             for _ in range(3):
                 e = dict(env)
-                self.assign(st.target, il | pc, e, None)
+                if rows is not None and isinstance(st.target, (ast.Tuple, ast.List)) and rows and \
+                        all(isinstance(r, (ast.Tuple, ast.List)) and len(r.elts) == len(st.target.elts) for r in rows):
+                    for k, t_ in enumerate(st.target.elts):
+                        lab_k = set()
+                        for r in rows:
+                            lab_k |= self.expr(r.elts[k], e)
+                        self.assign(t_, lab_k | pc, e, None)
+                elif rows is not None:
+                    lab_all = set()
+                    for r in rows:
+                        lab_all |= self.expr(r, e)
+                    self.assign(st.target, lab_all | pc, e, None)
+                else:
+                    self.assign(st.target, il | pc, e, None)
                 e, x = self.block2(st.body, e, pc | il)
                 extra |= x
                 env = self.join(env, e)
@@ -378,6 +395,18 @@ class LabelFlow:
 
     def _mark_set_iter(self, st):
         pass
+
+    def _literal_rows(self, it):
+        """elements of a literal tuple/list iterated by a for loop (directly or through a local assigned once), else None"""
+        if isinstance(it, (ast.Tuple, ast.List)):
+            return list(it.elts)
+        if isinstance(it, ast.Name):
+            defs = [n for n in ast.walk(self.fi.node) if isinstance(n, ast.Assign) and len(n.targets) == 1
+                    and isinstance(n.targets[0], ast.Name) and n.targets[0].id == it.id]
+            stores = [n for n in ast.walk(self.fi.node) if isinstance(n, ast.Name) and n.id == it.id and isinstance(n.ctx, ast.Store)]
+            if len(defs) == 1 and len(stores) == 1 and isinstance(defs[0].value, (ast.Tuple, ast.List)):
+                return list(defs[0].value.elts)
+        return None
 
     def join(self, a, b):
         out = dict(a)
